@@ -214,6 +214,11 @@ class C06(core.Check):
                 d = zckref.make_file(pieces, comp_type=0, dict_bytes=r.randbytes(r.choice([0, 13])), hash_type=ht, chunk_hash_type=r.randrange(4),
                                      opt_elems=oe, detached=det)
                 samples.append({"name": "ref-h%d-det%d-opt%d" % (ht, det, oe is not None), "data": d})
+        # another writer's header with unused bytes behind the signatures (they are header bytes like any other)
+        for ht in ((1,) if self.quick else range(4)):
+            pieces = [r.randbytes(r.randrange(1, 90)) for _ in range(3)]
+            d = zckref.make_file(pieces, comp_type=0, hash_type=ht, chunk_hash_type=1, header_tail=r.randbytes(r.choice([1, 13, 64])))
+            samples.append({"name": "ref-h%d-hdrtail" % ht, "data": d, "tail": True})
         # stored checksums containing 0x00 bytes (first byte / middle byte): comparisons that stop at a NUL would leave the rest unprotected
         for ht in range(4):
             for zpos in (0, zckref.DIGEST_SIZE[ht] // 2):
@@ -372,5 +377,16 @@ class C06(core.Check):
             h = zckref.hnew(p.hash_type)
             h.update(zckref.MAGIC_FULL + data[5:p.hdr_digest_loc] + data[p.lead_len:hl - 1])
             P([("s", p.hdr_digest_loc, h.digest()[:ds])], "digest-wrong-recipe")
+            # ... over the header only "until the end of the signatures" (a tempting reading of the format text): the unused bytes behind
+            # them would be covered by nothing
+            if s.get("tail"):
+                q0 = zckref.parse(data)
+                tl_ = len(data[:hl]) - (q0.off["sig_count"][0] + q0.off["sig_count"][1]) if "sig_count" in q0.off else 0
+                if tl_ > 0 and q0.sig_count == 0:
+                    h = zckref.hnew(p.hash_type)
+                    h.update(zckref.MAGIC_FULL + data[5:p.hdr_digest_loc] + data[p.lead_len:hl - tl_])
+                    P([("s", p.hdr_digest_loc, h.digest()[:ds])], "digest-until-signatures")
+                    for k_ in range(min(tl_, 6)):
+                        P([("s", p.hdr_digest_loc, h.digest()[:ds]), ("s", hl - 1 - k_, bytes([data[hl - 1 - k_] ^ 0x5A]))], "digest-until-signatures+tail-byte")
             out.append({"base": s["name"], "data": core.b64(data), "bin": ctx["bin"], "lines": lines, "lines_id": "P"})
         return out
